@@ -4,4 +4,9 @@ CLAIMS = {
         note="Trusted: deepfp (object-graph fingerprint incl. aliasing) is at least as fine as anything a render can read; argument factories are a finite menu (1-3 per method).",
         technique="explicit-state BFS over builder-call trees on the real objects, object-graph fingerprint invariant + differential observation",
     ),
+    "C18": dict(
+        text="Bounded-exhaustive enumeration of every 7-tuple of interval components over a digit-pattern domain (quick 5^7, thorough 8^7 = 2.1M tuples), each also with the leading component negated, plus quarters/weeks, rendered under all six dialect contexts; an independent reference reader parses the literal by the unit designator's field layout and must recover exactly the supplied components, sign and the dialect's quoting form. Exhaustive over the domain; the domain covers every character class the trimming regex distinguishes.",
+        note="Trusted: reference reader + quoting-form table in mc/checks/c18.py; integers outside the digit-pattern domain are represented by their pattern class.",
+        technique="bounded-exhaustive input enumeration on the real renderer against a reference parser",
+    ),
 }
